@@ -5,12 +5,12 @@ from props import wsmodel as W
 
 ID = "C01"
 PROPERTIES_V = "theories/Properties/C01X.v"
-EXTRA_PROPERTIES_V = ["theories/Properties/C01W.v"]   # two-workspace world: cross-workspace copies, frame across workspaces
+EXTRA_PROPERTIES_V = ["theories/Properties/C01W.v", "theories/Properties/C01T.v"]   # two-workspace world: cross-workspace copies, frame across workspaces
 CHUNK = 8  # histories are heavy terms (a dump of tree and file after every op): small case files, evaluated in parallel
-CASE_IMPORTS = "From GV Require Import Prelude.Base Model.WsX Model.WsXCheck."
+CASE_IMPORTS = "From GV Require Import Prelude.Base Model.WsX Model.WsXCheck.\nFrom GV Require Model.WsT Model.WsTCheck."  # typed terms are fully qualified
 ALLOWED_AXIOMS: list = []
-REFUTED = ["C01_reopen_refuted (full statement: witness ops_stale = re-creation over a stale flat node; open known finding stale-node-reused)"]
-PARTIAL = ["C01_reopen_partial (for ALL histories without re-creation over a stale node (fresh_run): re-open succeeds and yields the live tree up to children order)", "C01_load_rep (the loader rebuilds any represented tree)"]
+REFUTED = ["C01_reopen_refuted (full statement: witness ops_stale = re-creation over a stale flat node; open known finding stale-node-reused)", "C01T_reopen_refuted (typed layer: witness ops_stale_type = data created under a caller-supplied type identifier whose node is stale on file; open known finding stale-type-reused)"]
+PARTIAL = ["C01_reopen_partial (for ALL histories without re-creation over a stale node (fresh_run): re-open succeeds and yields the live tree up to children order)", "C01_load_rep (the loader rebuilds any represented tree)", "C01T_reopen_partial (typed layer Model/WsT.v: for ALL histories with fresh_types_run, close + open gives every entity its class, type identifier, primitive type and type name)", "C01T_attrs_sync"]
 LEVEL_TEXT = ("Unbounded Coq theorems over the workspace/file model: for ALL operation sequences (create, rename, flag, array, move, remove via workspace or parent, "
               "GC-dependent sweeps, close/re-open at any position) that never create an entity over a stale flat node, the file represents the live tree (invariant Rep, "
               "2.5 kLoC of proofs) and a fresh open rebuilds exactly that tree up to children order (C01_reopen_partial); the unrestricted statement is refuted with a "
@@ -47,10 +47,19 @@ def generate(rng, tier):
     # two workspaces with copies between them (identifiers kept when free in the target): compared with the Coq model
     k = 24 if tier == "quick" else 600
     cases += [{"w": True, "ops": W.gen_history_w(rng.fork(9000 + i), rng.range(14, 24))} for i in range(k)]
+    # typed layer (Model/WsT.v): entity types under caller-supplied identifiers (shared / swept / stale), compared with the model
+    from props import wstypes
+
+    kt = 30 if tier == "quick" else 700
+    cases += [{"t": True, "ops": wstypes.gen_history_t(rng.fork(13000 + i), rng.range(12, 24))} for i in range(kt)]
     return cases
 
 
 def drive_one(case, work):
+    if case.get("t"):
+        from props import wstypes
+
+        return wstypes.run_history_t(case["ops"], work, "c01t")
     if case.get("ext"):
         from props import wsext
 
@@ -61,6 +70,10 @@ def drive_one(case, work):
 
 
 def case_term(case, obs):
+    if case.get("t"):
+        from props import wstypes
+
+        return wstypes.history_case_term_t(case["ops"], obs["steps"])
     if case.get("ext"):
         return None  # outside the Coq model: evaluated by the oracle only
     if case.get("w"):
@@ -86,6 +99,16 @@ def oracle_ext(case, obs):
         if oc.startswith("error") and op["op"] == "reopen" and not any(k in oc for k in KNOWN_EXT_ERRORS):
             fails.append({"key": "ext-unexpected-exception", "what": f"op {i} {op}: {oc[:200]}"})
             break
+    for k, md in enumerate(obs.get("meta_diffs", [])):
+        if md:
+            # "nothing the user did is lost": a metadata entry assigned through the setter (which merges) is gone or changed in
+            # the live workspace at the next close.  With a copy in the history the recorded C12 defect (a copy shares its
+            # source's metadata dict) explains a CHANGED value; a LOST key is never explained by it
+            lost = [x for x in md if any(kk not in x["live"] for kk in x["assigned"])]
+            shared = not lost and any(o["op"] == "copy" for o in case["ops"])
+            fails.append({"key": "copy-shares-metadata-dict" if shared else "metadata-assignment-lost",
+                          "what": f"close #{k}: {str(md)[:400]}"})
+            return fails
     for k, per_ws in enumerate(obs["reopen_diffs"]):
         for w, d in enumerate(per_ws):
             if d:
@@ -129,6 +152,10 @@ def oracle(case, obs):
     """Property text: at every close + fresh open, the re-opened tree equals the tree the live workspace showed."""
     if "crash" in obs:
         return [{"key": "driver-crash", "what": obs["crash"][:300]}]
+    if case.get("t"):
+        from props import wstypes
+
+        return wstypes.oracle_c01_t(case["ops"], obs["steps"])
     if case.get("ext"):
         return oracle_ext(case, obs)
     if case.get("w"):
@@ -214,6 +241,8 @@ def _closure(keys, before, after):
 
 
 def nontrivial(case, obs):
+    if case.get("t"):
+        return any(o["op"] in ("rm_ws", "rm_parent", "types") for o in case["ops"]) and any(o["op"] == "create" and o["k"] == "D" for o in case["ops"])
     if case.get("w"):
         return any(o["op"] == "copy_x" for o in case["ops"])
     return any(o["op"] in ("rm_ws", "rm_parent", "rm_children", "copy", "pg") for o in case["ops"])
@@ -222,8 +251,9 @@ def nontrivial(case, obs):
 def histogram(cases, obs):
     h = {"ops": {}, "outcomes": {}, "length": {}, "reuse_histories": 0, "ext_histories": sum(1 for c in cases if c.get("ext"))}
     h["world_histories"] = sum(1 for c in cases if c.get("w"))
+    h["typed_histories"] = sum(1 for c in cases if c.get("t"))
     for c, o in zip(cases, obs):
-        if not isinstance(o, dict) or c.get("w"):
+        if not isinstance(o, dict) or c.get("w") or c.get("t"):
             continue
         L = str(len(c["ops"]) // 5 * 5)
         h["length"][L] = h["length"].get(L, 0) + 1
